@@ -189,6 +189,9 @@ def run_frontend_case(ctx, rng, idx):
     spec = plants.gen_electric_plant(rng, n_swb=n_swb, with_pti=False, with_storage=False, source_kinds=("genset", "generator"))
     if not any(c["kind"] == "drive" for c in spec["electric"]):
         spec["electric"].append(plants.gen_serial_spec(rng, "drive", "drive_x", spec["electric"][0]["swb"], 900.0))
+    if rng.random() < 0.6:        # components handed over in any order, not grouped by switchboard (port / starboard pairwise …)
+        spec["order"] = [int(i) for i in rng.permutation(len(spec["electric"]))]
+    ctx.count("frontend_component_order", "permuted" if "order" in spec else "grouped-by-switchboard")
     f_pct = float(rng.choice([50.0, 80.0, 100.0]))
     srcs = [c for c in spec["electric"] if c["kind"] in E.SOURCE_KINDS]
     total = sum(c["rated"] for c in srcs)
